@@ -45,7 +45,24 @@ impl Quil for Delay {
             write!(writer, " {}", QuotedString(frame_name))?;
         }
         write!(writer, " ",)?;
-        self.duration.write(writer, fall_back_to_debug)
+        // Without a frame name in between, a duration that starts with an integer or an identifier
+        // would be read back as further qubits, so such a duration is grouped.
+        let reads_as_qubits = self.frame_names.is_empty()
+            && match &self.duration {
+                Expression::Number(value) => value.re != 0f64 && value.im != 0f64,
+                Expression::Variable(_) | Expression::Prefix(_) => false,
+                Expression::Address(_)
+                | Expression::FunctionCall(_)
+                | Expression::Infix(_)
+                | Expression::PiConstant() => true,
+            };
+        if reads_as_qubits {
+            write!(writer, "(")?;
+            self.duration.write(writer, fall_back_to_debug)?;
+            write!(writer, ")").map_err(Into::into)
+        } else {
+            self.duration.write(writer, fall_back_to_debug)
+        }
     }
 }
 
